@@ -46,14 +46,24 @@ try:
     checks = (a.checks.split(",") if a.checks else [a.prop]) if a.mode != "suite" else []
     evd = f"/tmp/ev/evidence_{a.seed_id}"
     qc = [c for c in a.quick_checks.split(",") if c and c not in checks] if a.mode != "suite" else []
-    for c in checks + qc:
-        for tier in (a.tiers.split(",") if c in checks else ["quick"]):
-            t0 = time.time()
-            r = sh(f"cd {ROOT} && VERIF_REPO={wt} VERIF_EVIDENCE_DIR={evd} ./check {c} --tier {tier}")
-            sig = next((l.strip() for l in r.stdout.splitlines() if l.strip().startswith("sig=")), "")
-            caught.setdefault(c, {})[tier] = {"rc": r.returncode, "first_sig": sig[:300], "wall_s": round(time.time() - t0, 1)}
-            if r.returncode == 1:
-                break
+
+    def run_check(c, tier):
+        t0 = time.time()
+        r = sh(f"cd {ROOT} && VERIF_REPO={wt} VERIF_EVIDENCE_DIR={evd} ./check {c} --tier {tier}")
+        sig = next((l.strip() for l in r.stdout.splitlines() if l.strip().startswith("sig=")), "")
+        caught.setdefault(c, {})[tier] = {"rc": r.returncode, "first_sig": sig[:300], "wall_s": round(time.time() - t0, 1)}
+        return r.returncode == 1
+
+    # lean order: own check(s) quick; only if they miss: neighbours quick; only if those miss too: own check(s) thorough
+    hit = False
+    for c in checks:
+        hit = run_check(c, "quick") or hit
+    if not hit:
+        for c in qc:
+            hit = run_check(c, "quick") or hit
+    if not hit and "thorough" in a.tiers.split(","):
+        for c in checks:
+            hit = run_check(c, "thorough") or hit
     shutil.rmtree(evd, ignore_errors=True)
     if a.mode != "suite":
         report["checks"] = caught
